@@ -344,7 +344,7 @@ namespace awkward {
              !contents_[(size_t)nextindex_].get()->active()) {
       // only an 'index' addressed to this tuple (not to a tuple being filled
       // inside one of its fields) is bounded by this tuple's number of fields
-      if (index >= (int64_t)contents_.size()) {
+      if (index < 0  ||  index >= (int64_t)contents_.size()) {
         throw std::invalid_argument(
           std::string("'index' ")
           + std::to_string(index)
